@@ -370,6 +370,7 @@ func checkC05(r *Run) {
 	}
 	r.Floor("send-wakeup", nSel, 2, "selects in send")
 	c05Rerror(r, send)
+	freshRequestRecord(r, send, "fresh-request")
 
 	// each reply frame is a fresh object handed to exactly one caller
 	checkFreshFrame(r, reader, "fresh-frame")
@@ -627,4 +628,56 @@ func runsOnlyOn(p *Prog, fn, root *ssa.Function, depth int) bool {
 		})
 	}
 	return ok && nRef > 0
+}
+
+// freshRequestRecord: the record a call hands to the owner loop — and with it the two channels the call waits on — is
+// made for that call alone. A recycled record is still referenced by the owner's table when its previous call was
+// abandoned (context ended): the late reply for the abandoned call is then delivered to whichever later call got
+// the same record.
+func freshRequestRecord(r *Run, send *ssa.Function, rule string) {
+	p := r.P
+	var isFresh func(v ssa.Value, depth int) (bool, string)
+	isFresh = func(v ssa.Value, depth int) (bool, string) {
+		switch x := v.(type) {
+		case *ssa.Alloc:
+			flds, _, ok := allocFields(x)
+			if !ok {
+				return false, "not a composite literal"
+			}
+			for _, f := range []string{"response", "err"} {
+				if _, isMk := flds[f].(*ssa.MakeChan); !isMk {
+					return false, "the " + f + " channel is not created together with the record"
+				}
+			}
+			return true, ""
+		case *ssa.Call:
+			g := staticCallee(&x.Call)
+			if g == nil || g.Blocks == nil || !p.InModule(g) || depth > 2 {
+				return false, "obtained from " + calleeName(&x.Call)
+			}
+			for _, ret := range returnsOf(g) {
+				if len(ret.Results) != 1 {
+					return false, "constructor with several results"
+				}
+				if ok, why := isFresh(ret.Results[0], depth+1); !ok {
+					return false, fnName(g) + ": " + why
+				}
+			}
+			return true, ""
+		case *ssa.TypeAssert:
+			return false, "obtained from a dynamically typed source (pool/cache): " + valStr(x.X)
+		}
+		return false, "not constructed here"
+	}
+	n := 0
+	for _, ss := range p.sendSites(send) {
+		if chanProv(ss.Chan, 0) != "field:transport.requests" {
+			continue
+		}
+		n++
+		ok, why := isFresh(ss.Val, 0)
+		r.Check(ok, rule, "send: the request record and its reply channels are created for this call", ss.In.Pos(),
+			"the record handed to the owner loop is not fresh ("+why+"): a late reply or write error for an abandoned call reaches a later call")
+	}
+	r.Floor(rule, n, 1, "hand-over of the request record to the owner loop")
 }
